@@ -44,6 +44,9 @@ pub enum Interrupts {
     Seeded(u64, usize),
     /// bit i set = the i-th read call is preceded by an `Interrupted` (pattern repeats after 64 calls)
     Mask(u64),
+    /// `n` consecutive `Interrupted` answers before the read call with this 0-based index
+    /// ("any pattern of interrupted reads": also a long storm)
+    Storm(usize, usize),
 }
 
 pub const ERR_KINDS: [io::ErrorKind; 38] = [
@@ -115,6 +118,7 @@ pub struct SrcLog {
     pub high_water: usize,
     pub eof_reports: usize,
     pub budget_tripped: bool,
+    pub longest_interrupt_run: usize,
 }
 
 pub struct Src {
@@ -125,6 +129,7 @@ pub struct Src {
     int_rng: Rng,
     int_run: usize,
     int_pending_done: bool,
+    storm_left: Option<usize>,
     faults: Vec<Fault>,
     per_op_budget: usize,
     pub log: Rc<RefCell<SrcLog>>,
@@ -157,6 +162,7 @@ impl Src {
                 int_rng,
                 int_run: 0,
                 int_pending_done: false,
+                storm_left: None,
                 faults,
                 per_op_budget,
                 log: log.clone(),
@@ -176,6 +182,18 @@ impl Read for Src {
             Interrupts::BeforeEvery => !self.int_pending_done,
             Interrupts::Seeded(_, num) => self.int_run < 3 && self.int_rng.below(16) < num,
             Interrupts::Mask(m) => !self.int_pending_done && (m >> (call_no % 64)) & 1 == 1,
+            Interrupts::Storm(n, at) => {
+                if call_no == at && !buf.is_empty() {
+                    let left = self.storm_left.get_or_insert(n);
+                    if *left > 0 {
+                        *left -= 1;
+                        log.interrupts += 1;
+                        log.longest_interrupt_run = log.longest_interrupt_run.max(n - *left);
+                        return Err(io::Error::new(io::ErrorKind::Interrupted, "verif-interrupted"));
+                    }
+                }
+                false
+            }
         };
         if want_int && !buf.is_empty() {
             self.int_run += 1;
